@@ -2679,6 +2679,9 @@ impl Connection {
                         )
                     })?;
 
+                    // Directions in which the application may have been refused a stream under
+                    // the limits remembered for 0-RTT
+                    let at_0rtt_stream_limit = self.has_0rtt().then(|| self.streams.at_stream_limit());
                     if self.has_0rtt() {
                         if !self.crypto.early_data_accepted().unwrap() {
                             debug_assert!(self.side.is_client());
@@ -2705,6 +2708,10 @@ impl Connection {
                             .push_back(EndpointEventInner::ResetToken(self.path.remote, token));
                     }
                     self.handle_peer_params(params)?;
+                    if let Some(was_limited) = at_0rtt_stream_limit {
+                        // No MAX_STREAMS frame will announce the negotiated limits
+                        self.streams.stream_limits_replaced(was_limited);
+                    }
                     self.issue_first_cids(now);
                 } else {
                     // Server-only
